@@ -358,7 +358,12 @@ func (d *DBFT[H]) onPrepareRequest(msg ConsensusPayload[H]) {
 		return
 	}
 
-	d.sendPrepareResponse()
+	// A primary that has lost its state gets its own PrepareRequest back from a
+	// recovery message, it must not answer itself (the response would take the
+	// place of the request).
+	if !d.IsPrimary() {
+		d.sendPrepareResponse()
+	}
 	d.checkPrepare()
 }
 
